@@ -74,6 +74,7 @@ pub fn tables() -> Vec<Table> {
 		Table { name: "numeric id 7, two columns, one equal to an existing key", header: vec!["data_id", "k", "ratio", "flag"], rows: vec![vec!["7", "new", "0.5", "true"], vec!["x3", "z", "1.25", "false"]] },
 		Table { name: "no matching ids", header: vec!["data_id", "pop"], rows: vec![vec!["nobody", "1"]] },
 		Table { name: "id column only", header: vec!["data_id"], rows: vec![vec!["x1"], vec!["x2"], vec!["7"]] },
+		Table { name: "numeric ids written as integers and as decimals", header: vec!["data_id", "label"], rows: vec![vec!["2", "two"], vec!["5.0", "five"], vec!["3.5", "three and a half"], vec!["4.0", "four"], vec!["-6", "minus six"], vec!["7", "seven"]] },
 	]
 }
 
@@ -189,6 +190,15 @@ pub fn catalogue() -> Vec<(String, Vec<MLayer>)> {
 		"layer a, tables with duplicate keys, duplicate values and unused entries".into(),
 		vec![layer("a", &["id", "dup", "id", "unused", "k"], vec![s("x2"), s("x2"), s("v"), s("never"), s("x1")], vec![feat(Some(5), &[2, 4, 4, 2], 1, point(1, 1)), feat(Some(6), &[0, 1, 1, 2], 1, point(2, 2))])],
 	));
+	v.push((
+		"layer a, numeric ids as double / float / integers with integral and fractional values".into(),
+		vec![layer(
+			"a",
+			&["id"],
+			vec![(Enc::Double, MVal::F64(2.0f64.to_bits())), (Enc::Float, MVal::F32(5.0f32.to_bits())), (Enc::Double, MVal::F64(3.5f64.to_bits())), (Enc::UInt64, MVal::Int(4)), (Enc::SInt64, MVal::Int(-6)), (Enc::Double, MVal::F64((-6.0f64).to_bits())), (Enc::Float, MVal::F32(7.25f32.to_bits())), (Enc::Int64, MVal::Int(5))],
+			(0..8u32).map(|i| feat(Some(20 + i as u64), &[0, i], 1, point(i as i32, 2))).collect(),
+		)],
+	));
 	// exhaustively: all key tables of length <= 3 over {id, k}, every feature referencing each key position once
 	let names = ["id", "k"];
 	for len in 1..=3usize {
@@ -203,8 +213,8 @@ pub fn catalogue() -> Vec<(String, Vec<MLayer>)> {
 
 pub fn run(ctx: Arc<Ctx>) {
 	ctx.rule(
-		"catalogue: C10's 12 tiles + tiles around layer 'a' with an id key (ids as string / int64 / sint64 / uint64, float vs double, unknown geometry type, duplicate keys/values, unused entries, untouched second layer) + all key tables of length <= 3 over {id,k}; \
-		 x 4 data tables x 2^3 options (replace, remove_non_matching, include_id) x layer name {a, absent} x source compression; reference join on the independently decoded form; plus decode -> encode of every catalogue tile through the repository's VectorTile. \
+		"catalogue: C10's 12 tiles + tiles around layer 'a' with an id key (ids as string / int64 / sint64 / uint64 / float / double with integral and fractional values, float vs double, unknown geometry type, duplicate keys/values, unused entries, untouched second layer) + all key tables of length <= 3 over {id,k}; \
+		 x 5 data tables (string ids, numeric ids as integers and decimals) x 2^3 options (replace, remove_non_matching, include_id) x layer name {a, absent} x source compression; reference join on the independently decoded form; plus decode -> encode of every catalogue tile through the repository's VectorTile. \
 		 non-trivial = (tile, table, options) where the reference join changes at least one feature",
 	);
 	let cat = catalogue();
